@@ -145,11 +145,30 @@ def gen_cases(ctx):
                 c["axes"] = [[math.cos(th), math.sin(th), 0], [-math.sin(th), math.cos(th), 0]]
             c.update(tr())
             cases.append(c)
+    # ---- near-special rigid rotations of anisotropic bodies whose material axes are the global ones: tiny angles
+    #      (1e-2 deg, 5e-5 deg, 1e-7 rad) and exact 0 / 90 / 180 degrees; tolerance 1e-9
+    import math as _m
+    near = [1e-2, 5e-5, _m.degrees(1e-7), 0.0, 90.0, 180.0]
+    for k, ang in enumerate(near if not quick else near[:4] + [near[4 + (ctx.seed % 2)]]):
+        law = laws[1] if k % 2 == 0 else laws[2]
+        dim = 2 if k % 3 else 3
+        c = {"kind": "elastic", "dim": dim, "elemType": "QUAD4" if dim == 2 else "TETRA4", "law": law[0], "F": [0.4, -1.0, 0.3 if dim == 3 else 0.0],
+             "ps": False, "axes": [[1.0, 0.0, 0.0], [0.0, 1.0, 0.0]], "angle": ang, "axis": [0, 0, 1] if dim == 2 else [0.3, -0.5, 1.0],
+             "build": "coords", "tol": 1e-9, "exact": ang in (0.0, 90.0, 180.0) and dim == 2}
+        c.update(law[1])
+        cases.append(c)
+    # ---- scaled twins (change of units): lengths x {1e-9, 1e-6, 1e3}, moduli x 2^(+-40); the pair must still agree
+    for sL, sE in ((1e-9, 2.0 ** 40), (1e-6, 2.0 ** -40), (1e3, 1.0)) if not quick else ((1e-9, 2.0 ** 40), (1e3, 2.0 ** -40)):
+        c = {"kind": "elastic", "dim": 2, "elemType": rng.choice(["TRI3", "QUAD4"]), "law": "ti", "F": F3(), "ps": rng.random() < 0.5,
+             "El": 100.0 * sE, "Et": 20.0 * sE, "Gl": 8.0 * sE, "vl": 0.1, "vt": 0.3, "axes": [[0.8, 0.6, 0], [-0.6, 0.8, 0]],
+             "scaleL": sL, "build": "coords"}     # nodal loads, clamped edge (homogeneous in the length unit)
+        c.update(tr())
+        cases.append(c)
     # ---- both ways of building the moved problem: "coords" (coordinates transformed directly) and
     #      "api" (mesh.Symmetry / Rotate / Translate on a copy), with position-dependent Dirichlet
     #      values and boundary tractions / fluxes given as callables on the moved mesh
     for c in list(cases):
-        if c["kind"] in ("elastic", "thermal"):
+        if c["kind"] in ("elastic", "thermal") and "build" not in c:
             c["build"] = rng.choice(["coords", "api"])
     nf = 2 if quick else 5
     for rep in range(nf):
@@ -208,6 +227,22 @@ def gen_cases(ctx):
                       "F": [300.0, -800.0, 0.0], "M": [0, 0, 4000.0], "angle": rng.choice([90.0, 270.0]), "axis": [0, 0, 1], "exact": True})
         cases.append({"kind": "beam", "dim": 2, "timo": timo, "elemType": "SEG3", "points": [[0, 0, 0], [100.0, 0, 0], [100.0, 80.0, 0]],
                       "F": [300.0, -800.0, 0.0], "M": [0, 0, 4000.0], "reflect": [1, 0, 0], "exact": True})
+        # multi-member 3-D frame (upright portal: columns along z, members with DIFFERENT sections) built from scratch
+        # in every configuration; in the original one the members are aligned with the global axes and project onto each other
+        portal = {"kind": "beam", "dim": 3, "timo": timo, "elemType": "SEG3" if timo else "SEG2",
+                  "points": [[0, 0, 0], [0, 0, 90.0], [110.0, 0, 90.0], [110.0, 0, 0]], "members": [[0, 1], [1, 2], [2, 3]],
+                  "sections": [[13.0, 9.0], [6.0, 16.0], [10.0, 10.0]], "clamped": [0, 3], "loaded": 1,
+                  "F": [300.0, -500.0, 150.0], "M": [800.0, 0.0, -600.0]}
+        for mv in ([{"angle": round(rng.uniform(5, 355), 1), "axis": [0.3, -0.6, 1.0], "translate": [7.0, -3.0, 11.0]}] +
+                   ([{"angle": 90.0, "axis": [1, 0, 0], "exact": True}] if not (quick and timo) else []) +
+                   ([{"reflect": [1.0, 0.5, -0.7]}] if not quick or timo else [])):
+            cases.append(dict(portal, **mv))
+        # uniform line load on an inclined member (consistent nodal forces must follow the member)
+        cases.append({"kind": "beam", "dim": 2, "timo": timo, "elemType": "SEG3", "points": [[0, 0, 0], [120.0, 0, 0]], "F": [0.0, -1e-9, 0.0],
+                      "lineload": [2.0, -5.0, 0.0], "angle": 30.0})
+        # roll of the section about the member's own axis on an EXISTING, already solved simulation
+        cases.append({"kind": "beam_roll", "timo": timo, "elemType": "SEG3" if timo else "SEG2", "roll": 25.0 if timo else 90.0,
+                      "F": [100.0, -300.0, 200.0]})
         # rotated L-frame with a tip moment (proper rotation)
         cases.append({"kind": "beam", "dim": 2, "timo": timo, "elemType": "SEG3", "points": shapes2[1], "F": [300.0, -800.0, 0.0], "M": [0, 0, 5000.0],
                       "angle": round(rng.uniform(5, 355), 1)})
@@ -240,7 +275,9 @@ def gen_cases(ctx):
 
 def classify(c, r, beam):
     moved = ("rot" if c.get("angle") else "") + ("+refl" if c.get("reflect") else "") + ("+transl" if c.get("translate") else "")
-    if c["kind"] == "beam":
+    if c["kind"] == "beam_roll":
+        cls = "beam_roll:%s" % ("Timoshenko" if c.get("timo") else "EB")
+    elif c["kind"] == "beam":
         cls = "beam:%s:%dD" % ("Timoshenko" if c.get("timo") else "EB", c["dim"])
     elif c["kind"] == "elastic":
         cls = "elastic:%s:%dD" % (c["law"], c["dim"])
@@ -255,6 +292,10 @@ def classify(c, r, beam):
         key = "mesh-motion:Mesh.%s" % step
     elif c.get("pressure") and c.get("reflect"):
         key = "pressure-reflected-mesh:Get_normals"
+    elif c["kind"] == "beam_roll":
+        key = "beam-section-roll-on-existing-simulation:%s" % ("Timoshenko" if c.get("timo") else "EB")
+    elif c["kind"] == "beam" and c.get("lineload") and not c.get("timo"):
+        key = "beam-lineLoad-EB-inclined:add_lineLoad"
     elif c["kind"] == "beam" and c.get("exact") and len(c.get("points", [])) == 2 and c.get("angle") == 180.0:
         key = "beam-on-x-axis-towards-minus-x:inDim"
     elif c["kind"] == "beam" and beam is not None and not beam["block_transposed"]:
@@ -294,13 +335,13 @@ def correspondence(ctx, beam, holder):
     for c, r in zip(cases, res):
         cls, moved, key = classify(c, r, beam)
         tag = cls + ":" + moved + (":" + c["build"] if "build" in c else "") + (":field-loads" if c.get("loads") == "field" else "") + (":pressure" if c.get("pressure") else "") \
-            + (":" + c["form"] if c.get("form") else "") + (":exact" if c.get("exact") else "") + (":moment" if c.get("M") else "") + (":frame" if len(c.get("points", [])) > 2 else "") + (":dynamic-step" if c.get("dynamic") else "")
+            + (":" + c["form"] if c.get("form") else "") + (":scaled" if c.get("scaleL") else "") + (":lineload" if c.get("lineload") else "") + (":near-special" if c.get("tol") else "") + (":portal" if c.get("members") else "") + (":exact" if c.get("exact") else "") + (":moment" if c.get("M") else "") + (":frame" if len(c.get("points", [])) > 2 else "") + (":dynamic-step" if c.get("dynamic") else "")
         dist[tag] = dist.get(tag, 0) + 1
         ctx.note_case(None if c["kind"] == "Bcheck" else "%s:%s:%s" % (tag, c.get("elemType"), c.get("angle")))
         if "raises" in r:
             bad.append((key, cls, c, "the implementation raised %s" % r["raises"], r))
             continue
-        tol = 1e-12 if c["kind"] in ("Bcheck", "motion") else TOL
+        tol = 1e-12 if c["kind"] in ("Bcheck", "motion") else c.get("tol", TOL)
         worst[cls] = max(worst.get(cls, 0.0), r["err"])
         if r["err"] > tol:
             extra = ""
@@ -320,7 +361,7 @@ def correspondence(ctx, beam, holder):
             continue
         seen.add(key)
         ctx.violation(key, what + " — case %s" % json.dumps(c),
-                      {"replay_py": REPLAY % dict(verif=common.VERIF, case=c, tol=(1e-12 if c["kind"] in ("Bcheck", "motion") else TOL)),
+                      {"replay_py": REPLAY % dict(verif=common.VERIF, case=c, tol=(1e-12 if c["kind"] in ("Bcheck", "motion") else c.get("tol", TOL))),
                        "case": c, "impl_result": {k: v for k, v in r.items() if k != "tb"}}, found_input=True)
     holder["bad"] = bad
 
